@@ -299,7 +299,7 @@ async def _main(loop, params, res):
     fm = params.get("fm")
     ctx = wfkit.make_context(workdir, failure_manager=fm)
     run = execkit.reset_run(params.get("plan"))
-    wb = WB(ctx, workdir, nlocs=params["spec"].get("nlocs", 1))
+    wb = WB(ctx, workdir, nlocs=params["spec"].get("nlocs", 1), sites=params["spec"].get("sites"))
     res["expected"] = build(wb, params["spec"])
     wf = await wb.finish()
     res["wf"] = wf
